@@ -220,6 +220,10 @@ func (e *env) byHeight(height, count int, withCount bool) {
 			e.violate("by-height|field|"+strings.SplitN(bad, ":", 2)[0], bad, "GET "+q, nil)
 			return
 		}
+		if got[h.Hash] {
+			e.violate("by-height|"+cls+"|listed-twice", fmt.Sprintf("GET %s lists header %s (height %d) twice", q, h.Hash, n.Height), "GET "+q, nil)
+			return
+		}
 		got[h.Hash] = true
 	}
 	for _, n := range mustHave {
@@ -560,6 +564,15 @@ func (e *env) queryState(rng *rand.Rand, exhaustive bool) {
 			e.byHeight(rng.Intn(maxH+4)-1, rng.Intn(8), rng.Intn(5) > 0)
 		}
 		e.byHeight(0, maxH+3, true)
+		if maxH > 2100 {
+			// windows of 1999..2002 and 4000+ heights (around the sizes at which a listing might be cut into pieces)
+			for _, c := range []int{1999, 2000, 2001, 2002, 4001} {
+				if !e.failed {
+					e.byHeight(rng.Intn(maxH-2002), c, true)
+				}
+			}
+			e.r.Count("by_height_windows_of_about_2000_heights", 5)
+		}
 		for i := 0; i < 150 && !e.failed; i++ {
 			e.ancestors(nodes[rng.Intn(len(nodes))], nodes[rng.Intn(len(nodes))])
 		}
@@ -603,7 +616,7 @@ func body(r *ev.Run) {
 		caseID := fmt.Sprintf("long/%d", i)
 		r.Do(caseID, func() {
 			rng := r.Rand(caseID)
-			hist := gen.DeepReorg(rng, rig.Genesis(), []int{30, 800, 1500}[i%3], []int{2050, 700, 520}[i%3])
+			hist := gen.DeepReorg(rng, rig.Genesis(), []int{80, 800, 1500}[i%3], []int{2050, 700, 520}[i%3])
 			if err := st.Reset(); err != nil {
 				r.Violate("harness|reset", err.Error(), caseID, nil)
 				return
